@@ -248,7 +248,9 @@ impl Check for C14 {
         }
         let via_library: Vec<bool> = {
             let mut lr = r.split("library");
-            (0..n).map(|k| k > 0 && k + 1 < n && !force_kind && (i / 11) % 5 == 3 && between.iter().all(|b| b.is_none()) && lr.chance(1, 2)).collect()
+            // (not where the dependency report is requested: the library writes no report and therefore
+            // leaves no record either; the next run regenerates, rightly)
+            (0..n).map(|k| k > 0 && k + 1 < n && !force_kind && !cfg.visualize && (i / 11) % 5 == 3 && between.iter().all(|b| b.is_none()) && lr.chance(1, 2)).collect()
         };
         let mut fr = r.split("force");
         // the force matrix is walked systematically: (cache state) x (force source) x (setup);
